@@ -554,7 +554,7 @@ impl VaultEngine {
                 ok = matches!(r, Outcome::Ok(_));
                 if ok {
                     let after = w.asset_bal(&who);
-                    let paid = after - before.ab[a[0] as usize];
+                    let paid = after.saturating_sub(before.ab[a[0] as usize]);
                     if let Outcome::Ok(qv) = quoted {
                         mon.check("C14", "vault_share_eq_withdraw", qv.u128() == paid, || {
                             format!("Share({}) = {} but withdraw paid {}", a[1], qv, paid)
@@ -675,29 +675,30 @@ impl VaultEngine {
             mon.check("C05", "min_liquidity_locked", after.lpv == 1000 && before.lpv == 1000, || ctx("vault's own LP stake is not the locked minimum"));
         }
         // ---- ghost ledgers (C07, vault part)
-        let dcol = after.ab[4] - before.ab[4];
+        let dcol = after.ab[4].saturating_sub(before.ab[4]);
+        mon.check("C07", "vault_collector_never_pays", after.ab[4] >= before.ab[4], || ctx("collector balance decreased"));
         w.sent_to_collector += dcol;
         match ws[0] {
             "deposit" => {
                 let who: usize = ws[1].parse().unwrap();
                 let amount: u128 = ws[2].parse().unwrap();
-                let minted = after.lb[who] - before.lb[who];
+                let minted = after.lb[who].saturating_sub(before.lb[who]);
                 if before.sup == 0 {
-                    mon.check("C05", "first_deposit_locks_minimum", after.lpv == 1000 && minted == amount - 1000 && after.sup == amount, || ctx("first deposit split"));
+                    mon.check("C05", "first_deposit_locks_minimum", after.lpv == 1000 && minted + 1000 == amount && after.sup == amount, || ctx("first deposit split"));
                     w.first_deposit_done = true;
                 } else {
                     mon.check("C05", "deposit_le_pro_rata", u512(minted) * u512(r0) <= u512(amount) * u512(before.sup), || ctx("deposit minted more than pro rata"));
                 }
-                mon.check("C05", "deposit_moves_exact_amount", after.bal == before.bal + amount && before.ab[who] - after.ab[who] == amount, || ctx("deposit moved a different amount"));
+                mon.check("C05", "deposit_moves_exact_amount", after.bal == before.bal + amount && before.ab[who] == after.ab[who] + amount, || ctx("deposit moved a different amount"));
                 w.last_deposit = Some((who, amount, minted));
                 mon.stat("mon_deposit_ok");
             }
             "withdraw" => {
                 let who: usize = ws[1].parse().unwrap();
                 let lp: u128 = ws[2].parse().unwrap();
-                let paid = after.ab[who] - before.ab[who];
+                let paid = after.ab[who].saturating_sub(before.ab[who]);
                 mon.check("C05", "withdraw_le_pro_rata", u512(paid) * u512(before.sup) <= u512(r0) * u512(lp), || ctx("withdrawal paid more than pro rata"));
-                mon.check("C05", "withdraw_burns_lp", before.sup - after.sup == lp && before.lb[who] - after.lb[who] == lp && before.bal - after.bal == paid, || ctx("withdraw bookkeeping"));
+                mon.check("C05", "withdraw_burns_lp", before.sup == after.sup + lp && before.lb[who] == after.lb[who] + lp && before.bal == after.bal + paid, || ctx("withdraw bookkeeping"));
                 if let Some((dwho, damount, dminted)) = w.last_deposit {
                     if dwho == who && lp <= dminted {
                         mon.check("C05", "deposit_then_withdraw_no_gain", paid <= damount, || ctx("deposit-then-withdraw returned more than deposited"));
@@ -707,7 +708,7 @@ impl VaultEngine {
                 w.last_deposit = None;
             }
             "collect" => {
-                mon.check("C07", "vault_collect_exact", dcol == before.pend && after.pend == 0 && before.bal - after.bal == before.pend, || ctx("collect did not transfer exactly the pending fees"));
+                mon.check("C07", "vault_collect_exact", dcol == before.pend && after.pend == 0 && before.bal == after.bal + before.pend, || ctx("collect did not transfer exactly the pending fees"));
                 mon.check("C07", "vault_collect_keeps_reserves", r0 == r1 && before.sup == after.sup, || ctx("collect changed LP reserves"));
                 mon.check("C07", "vault_collect_only_collector", (0..4).all(|i| before.ab[i] == after.ab[i]), || ctx("collect paid someone else"));
                 w.last_deposit = None;
@@ -718,8 +719,8 @@ impl VaultEngine {
                 w.charged += pf;
                 w.burned_sum += bf;
                 mon.check("C06", "loan_balance_ge_fees", after.bal >= before.bal + pf + ff, || ctx("vault balance did not grow by protocol + flash-loan fee"));
-                mon.check("C06", "loan_fees_exact", after.all - before.all == pf && after.burned - before.burned == bf, || ctx("recorded fees differ from floor(share*loan)"));
-                mon.check("C06", "loan_burn_destroyed", before.asup - after.asup == bf, || ctx("burn fee did not leave circulation"));
+                mon.check("C06", "loan_fees_exact", after.all == before.all + pf && after.burned == before.burned + bf, || ctx("recorded fees differ from floor(share*loan)"));
+                mon.check("C06", "loan_burn_destroyed", before.asup == after.asup + bf, || ctx("burn fee did not leave circulation"));
                 mon.check("C06", "loan_no_mint", after.sup <= before.sup, || ctx("LP minted during a loan"));
                 mon.check("C06", "loan_counter_zero", after.ctr == 0, || ctx("loan counter not back to zero"));
                 w.last_deposit = None;
@@ -732,7 +733,7 @@ impl VaultEngine {
         if ws[0] != "collect" && ws[0] != "loan" {
             mon.check("C07", "vault_only_collect_pays_collector", dcol == 0, || ctx("collector balance moved outside a collection"));
         }
-        mon.check("C07", "vault_pending_ledger", after.pend == w.charged - w.sent_to_collector, || {
+        mon.check("C07", "vault_pending_ledger", after.pend + w.sent_to_collector == w.charged, || {
             ctx(&format!("pending != charged {} - sent {}", w.charged, w.sent_to_collector))
         });
         mon.check("C07", "vault_all_time_eq_charged", after.all == w.charged && after.all >= before.all, || ctx("all-time counter"));
@@ -881,6 +882,20 @@ impl Engine for VaultEngine {
             _ => small(rng, o.bal),
         };
         let pb = payback(n);
+        if rng.chance(1, 12) && o.bal > 10 {
+            // nested-loan fee skimming: the inner loan repays itself in full; the outer repayment is
+            // short by (up to) the inner loan's retained fees. Must revert (nested loans are refused).
+            let n1 = (o.bal / 100).max(1);
+            let n2 = o.bal - n1;
+            let inner_fees = payback(n2) - n2;
+            let short = match rng.below(3) {
+                0 => inner_fees,
+                1 => inner_fees / 2,
+                _ => 0,
+            };
+            let cb = vec![Act::Loan(n2, vec![Act::Pay(payback(n2))]), Act::Pay(payback(n1).saturating_sub(short).max(1))];
+            return Some(format!("loan {n1} {}", show_acts(&cb)));
+        }
         let cb = gen_cb(rng, &o, n, pb, 0);
         Some(format!("loan {n} {}", show_acts(&cb)))
     }
